@@ -559,6 +559,7 @@ var localKnownTags = map[string]bool{
 	"c13-mem2reg-switch-early-break":             true, // C13-12
 	"c13-mem2reg-store-before-loop-dropped":      true, // C13-13
 	"c13-compacttypes-not-idempotent":            true, // C13-14
+	"c13-sroa-full-compose-store-not-decomposed": true, // C13-15
 }
 
 func exprKindOf(is irx.Issue) ir.ExpressionKind {
@@ -671,6 +672,9 @@ func knownConstruct(m *ir.Module, passes []string) string {
 	}
 	if m2r && active("c13-mem2reg-single-block-in-loop") && singleBlockVarInLoop(m) {
 		return "c13-mem2reg-single-block-in-loop"
+	}
+	if (hasPass(passes, "dxil:sroa") || hasPass(passes, "dxil:all")) && active("c13-sroa-full-compose-store-not-decomposed") && composeStoredToStructLocal(m) {
+		return "c13-sroa-full-compose-store-not-decomposed"
 	}
 	if m2r && active("c13-mem2reg-switch-early-break") && switchCaseEarlyBreak(m) {
 		return "c13-mem2reg-switch-early-break"
@@ -905,6 +909,35 @@ func storeBeforeLoopThatStores(m *ir.Module) bool {
 					storesIn(k.Continuing, in, 0)
 					for v := range in {
 						if stored[v] {
+							found = true
+						}
+					}
+				}
+				for _, sb := range irx.SubBlocks(s.Kind) {
+					walk(sb, d+1)
+				}
+			}
+		}
+		walk(ir.Block(fn.Body), 0)
+	})
+	return found
+}
+
+// composeStoredToStructLocal: a Store writes a Compose into a whole struct-typed local variable.
+func composeStoredToStructLocal(m *ir.Module) bool {
+	found := false
+	eachFunction(m, func(fn *ir.Function) {
+		var walk func(b ir.Block, d int)
+		walk = func(b ir.Block, d int) {
+			if d > 500 || found {
+				return
+			}
+			for _, s := range b {
+				if st, ok := s.Kind.(ir.StmtStore); ok && int(st.Pointer) < len(fn.Expressions) && int(st.Value) < len(fn.Expressions) {
+					lv, isLocal := fn.Expressions[st.Pointer].Kind.(ir.ExprLocalVariable)
+					_, isCompose := fn.Expressions[st.Value].Kind.(ir.ExprCompose)
+					if isLocal && isCompose && int(lv.Variable) < len(fn.LocalVars) && int(fn.LocalVars[lv.Variable].Type) < len(m.Types) {
+						if _, isStruct := m.Types[fn.LocalVars[lv.Variable].Type].Inner.(ir.StructType); isStruct {
 							found = true
 						}
 					}
